@@ -31,6 +31,7 @@ type SplitDump struct {
 	Generation int
 	Digests   []string
 	Rates     map[string]string
+	NoForeign bool
 }
 
 func (h *Host) dumpDB() [][2][]byte {
@@ -45,7 +46,7 @@ func (h *Host) dumpDB() [][2][]byte {
 }
 
 func newHostFromDump(cfg *Config, d *SplitDump) *Host {
-	h := &Host{cfg: cfg, db: dbm.NewMemDB(), chain: chainID, generation: d.Generation, rates: copyRates(d.Rates)}
+	h := &Host{cfg: cfg, db: dbm.NewMemDB(), chain: chainID, generation: d.Generation, rates: copyRates(d.Rates), noForeign: d.NoForeign}
 	for _, kv := range d.KVs {
 		v := kv[1]
 		if v == nil {
@@ -103,6 +104,7 @@ func cmdPhase(args []string) {
 		d.HeaderT = x.H().Time().UnixNano()
 		d.Generation = x.H().generation
 		d.Rates = x.H().rates
+		d.NoForeign = x.H().noForeign
 		f, err := os.Create(*out)
 		must(err)
 		must(gob.NewEncoder(f).Encode(d))
